@@ -70,7 +70,7 @@ def mutants(argv):
             meta = os.path.join(sdir, d, "meta.json")
             if os.path.exists(meta):
                 m = json.load(open(meta))
-                pats.append((m["property"], os.path.join(sdir, d, "patch.diff"), "seeded/" + d))
+                pats.append((m.get("run_check", m["property"]), os.path.join(sdir, d, "patch.diff"), "seeded/" + d))
     baseline = "--baseline" in argv
     argv = [a for a in argv if a != "--baseline"]
     only = set(argv)
